@@ -5,6 +5,7 @@ for spec in "$@"; do
   case $id in
     *c) base=${id%c}; wt=/tmp/wt3_$base;;
     *d) base=${id%d}; wt=/tmp/wt4_$base;;
+    *e) base=${id%e}; wt=/tmp/wt5_$base;;
   esac
   bash /verif/tools/confirm_seeded.sh $id $wt $tests
 done
